@@ -8,5 +8,5 @@ if ! grep -q '"confirmed": true' /tmp/seed/verify_$name.log; then echo "$name NO
 (
   flock 9
   echo "== $name" >> /tmp/seedall.log
-  bash run/seedrun.sh seeded/$name/patch.diff "$@" >> /tmp/seedall.log 2>&1
+  bash run/seedrun.sh /verif/seeded/$name/patch.diff "$@" >> /tmp/seedall.log 2>&1
 ) 9>/tmp/repo.lock
